@@ -1064,7 +1064,11 @@ func runCheck(prop, tier string, seed uint64, workers, budgetOverride int, keep,
 		fmt.Fprintf(os.Stderr, "simcheck: TROUBLE (exit 2): %d of %d race plans exceeded the wall-clock cap\n", over, c.evals)
 		return 2
 	}
-	if c.recheckBad > 0 {
+	if c.recheckBad > 0 && len(c.env.Uncontrol) > 0 {
+		// goroutines the library starts at uncontrolled sites make yield counts
+		// (not results) vary; replay exactness is not claimed for such a tree
+		logf("%s: %d of %d replay re-checks differ in their event log — expected with uncontrolled sources %v", c.prop, c.recheckBad, c.rechecks, c.env.Uncontrol)
+	} else if c.recheckBad > 0 {
 		fmt.Fprintf(os.Stderr, "simcheck: TROUBLE (exit 2): %d of %d replay re-checks did not reproduce the same event log\n", c.recheckBad, c.rechecks)
 		return 2
 	}
